@@ -29,6 +29,12 @@ class Observer:
         self.cands = {}           # (disk, pos) -> set(values) ever recorded there
         self.pcache = {}          # (l, pos) -> (digest of bytes, result)
 
+    def clone_for(self, a2):
+        """an observer for a clone of the array that knows the same candidate values"""
+        o = Observer(a2)
+        o.cands = {k: set(v) for k, v in self.cands.items()}
+        return o
+
     # ---- hashes
     def hmap(self, kind, seed, hs):
         key = (kind, seed, hs)
